@@ -114,7 +114,7 @@ def fp_boundary(chk):
 
 
 def native_probe(chk):
-    """[B] both real kernels on 72 (geometry, energy/length/time unit) combinations per dtype assignment: energy conservation against a
+    """[B] both real kernels on 96 (geometry, energy/length/time unit) combinations per dtype assignment: energy conservation against a
     40-digit reference, unit, dtype, NaN below t0 and a number above, no infinity and monotone NaN-ness on the 49 doubles around t0"""
     combos = list(itertools.product(('float64', 'float32'), repeat=4))
     if chk.tier == 'quick':
@@ -130,7 +130,7 @@ def native_probe(chk):
             for kname, (ename, Lfix, Lvar, sign) in GEOM.items():
                 dts = dict(zip(['tof', 'L1', 'L2', ename], combo))
                 r = replay({'obligation': f'C05/{MOD}:{kname}/native', 'meta': {'kernel': kname, 'dtypes': dts}})
-                n += r.get('tried', 72)
+                n += r.get('tried', 96)
                 if r.get('reproduced') and not any(f['kernel'] == kname and f['dtypes'] == dts for f in fails):
                     fails.append({'id': f'{kname}-{"-".join(combo)}-{order.split()[0]}', 'kernel': kname, 'dtypes': dts, 'order': order,
                                   **{k: v for k, v in r.items() if k != 'reproduced'}})
@@ -165,7 +165,7 @@ def replay(rec):
     mev = mp.mpf(sc.scalar(1.0, unit='meV').to(unit='J').value)
     tried = 0
     for (Ei, Ef, L1, L2), eu, lu, tu in itertools.product(
-            [(5.0, 3.0, 20.0, 2.5), (0.01, 900.0, 0.3, 800.0), (7000.0, 7000.0, 150.0, 0.11)],
+            [(5.0, 3.0, 20.0, 2.5), (0.01, 900.0, 0.3, 800.0), (7000.0, 7000.0, 150.0, 0.11), (50.0, 30.0, 0.5, 0.5)],   # the last: a compact instrument, flight times of 0.2 ms
             ['meV', 'eV', 'J'], ['m', 'mm'], ['us', 's', 'ms', 'ns']):
         v = lambda E: mp.sqrt(2 * mp.mpf(E) * mev / m)
         t = mp.mpf(L1) / v(Ei) + mp.mpf(L2) / v(Ef)
